@@ -67,7 +67,8 @@ class ExecGen:
             else:
                 self.answers[name] = {'seq': [1] * r.randint(0, self.k['max_loop']), 'then': 0}
         elif kind == 'cond':
-            self.answers[name] = {'seq': [r.choice([0, 1, 1, None, True, False, 2]) for _ in range(r.randint(0, 4))],
+            self.answers[name] = {'seq': [r.choice([0, 1, 1, None, True, False, 2, {}, {'k': 1}, [], [0], '', 'a'])
+                                          for _ in range(r.randint(0, 4))],
                                   'then': r.choice([0, 1])}
         else:
             self.answers[name] = {'seq': [r.randint(0, 9) for _ in range(r.randint(0, 4))], 'then': r.randint(0, 3)}
@@ -107,8 +108,10 @@ class ExecGen:
             return s(r.choice(['', 'a', 'xy']))
         if c < 0.7:
             return var(r.choice(['null', 'true', 'false']))
-        if c < 0.85:
+        if c < 0.82:
             return var(r.choice(scope['gens']))
+        if c < 0.86:
+            return call('objectNew', *([s('k'), num(1)] if r.random() < 0.4 else []))
         return self.cond_expr(scope)
 
     def callable_names(self, scope):
@@ -435,6 +438,17 @@ class ExecGen:
             stmts.extend(self.block(sub_scope, 1, r.randint(1, 5)))
             if not any('expr' in st for st in stmts):
                 stmts.insert(0, self.tick())
+            if self.k.get('self_include') and r.random() < self.k['self_include'] and not isinstance(ref, tuple) \
+                    and not R.is_url(ref) and not ref.startswith('/'):
+                # a file that includes ITSELF while an environment answer says so (terminates: finitely many answers)
+                site = f's{self.n_site}'
+                self.n_site += 1
+                self.used_hosts.add('hostNext')
+                self.answers[site] = {'seq': [1] * r.randint(1, 3), 'then': 0}
+                lab = self.label()
+                pos = r.randint(0, len(stmts))
+                own = ref.rsplit('/', 1)[-1]
+                stmts[pos:pos] = [ir.st_jump(lab, unop('!', call('hostNext', s(site)))), ir.st_include(own), ir.st_label(lab)]
             self.files[norm] = self.file_entry(stmts, broken=r.random() < self.k.get('p_broken', 0.0))
             refs.append(ref)
         if r.random() < 0.15:
